@@ -4,6 +4,7 @@ import (
 	"go/constant"
 	"go/token"
 	"go/types"
+	"strings"
 
 	"golang.org/x/tools/go/ssa"
 )
@@ -193,6 +194,24 @@ func (pe *peval) run(fn *ssa.Function, params map[int]int64) *pevalResult {
 					}
 				case *ssa.ChangeType:
 					set(x, get(x.X))
+				case *ssa.Lookup:
+					// a lookup with a constant key in a package-level map that is filled once, by constants, in the
+					// package initialiser and never written afterwards (a kind -> width table)
+					k := get(x.Index)
+					if k.k == 1 && !x.CommaOk {
+						if tab, ok := pe.c.globalMapConst(x.X); ok {
+							if v, has := tab[k.v]; has {
+								set(x, latv{1, v})
+							} else {
+								set(x, latv{1, 0}) // missing key: the zero value
+							}
+							continue
+						}
+					}
+					if k.k == 0 {
+						continue
+					}
+					set(x, latTop)
 				case *ssa.Call:
 					set(x, pe.callValue(res, x))
 				case *ssa.If:
@@ -529,4 +548,87 @@ func (c *Ctx) kindSpecific(f *ssa.Function, k int64) []ownedInstr {
 		}
 	})
 	return out
+}
+
+// globalMapConst: v loads a package-level map variable of the module whose only store is, in the
+// package initialiser, a map built there from constant keys and constant integer values, and which no
+// other code updates: the table as Go data.
+func (c *Ctx) globalMapConst(v ssa.Value) (map[int64]int64, bool) {
+	ld, ok := v.(*ssa.UnOp)
+	if !ok || ld.Op != token.MUL {
+		return nil, false
+	}
+	g, ok := ld.X.(*ssa.Global)
+	if !ok || g.Pkg == nil || !strings.HasPrefix(g.Pkg.Pkg.Path(), modPath) {
+		return nil, false
+	}
+	if c.mapMemo == nil {
+		c.mapMemo = map[*ssa.Global]map[int64]int64{}
+	}
+	if t, done := c.mapMemo[g]; done {
+		return t, t != nil
+	}
+	c.mapMemo[g] = nil
+	initFn := g.Pkg.Func("init")
+	if initFn == nil {
+		return nil, false
+	}
+	var mk ssa.Value
+	nStores := 0
+	for _, f := range c.moduleFuncs(strings.TrimPrefix(strings.TrimPrefix(g.Pkg.Pkg.Path(), modPath), "/")) {
+		bad := false
+		if f == initFn {
+			continue
+		}
+		allInstrs(f, func(_ *ssa.BasicBlock, in ssa.Instruction) {
+			switch x := in.(type) {
+			case *ssa.Store:
+				if x.Addr == ssa.Value(g) {
+					nStores++
+					mk = x.Val
+				}
+			case *ssa.MapUpdate:
+				if l2, ok := x.Map.(*ssa.UnOp); ok && l2.X == ssa.Value(g) {
+					bad = true // updated through the variable after initialisation
+				}
+			}
+		})
+		if bad {
+			return nil, false
+		}
+	}
+	// the initialiser's own stores
+	allInstrs(initFn, func(_ *ssa.BasicBlock, in ssa.Instruction) {
+		if st, ok := in.(*ssa.Store); ok && st.Addr == ssa.Value(g) {
+			nStores++
+			mk = st.Val
+		}
+	})
+	if nStores != 1 || mk == nil {
+		return nil, false
+	}
+	if _, isMk := mk.(*ssa.MakeMap); !isMk {
+		return nil, false
+	}
+	tab := map[int64]int64{}
+	okAll := true
+	for _, r := range *mk.Referrers() {
+		switch x := r.(type) {
+		case *ssa.MapUpdate:
+			k, ok1 := constInt(stripConv(x.Key))
+			val, ok2 := constInt(stripConv(x.Value))
+			if !ok1 || !ok2 {
+				okAll = false
+			}
+			tab[k] = val
+		case *ssa.Store, *ssa.DebugRef:
+		default:
+			okAll = false
+		}
+	}
+	if !okAll {
+		return nil, false
+	}
+	c.mapMemo[g] = tab
+	return tab, true
 }
